@@ -4177,7 +4177,7 @@ py_statements = [
             "{size_var} = {value_var}.size;",
         ],
         arg_call=["{cxx_var}"],
-        post_call=[
+        cleanup=[
             "Py_XDECREF({value_var}.dataobj);",
         ],
         fail=[
